@@ -360,7 +360,8 @@ fn matching_end(toks: &[Tok], i: usize) -> Option<usize> {
     for (j, t) in toks.iter().enumerate().skip(i + 1) {
         match t.k {
             TK::Start => depth += 1,
-            TK::End => {
+            // (an end tag marked as stray closes nothing)
+            TK::End if t.attrs.is_empty() => {
                 if depth == 0 {
                     return Some(j);
                 }
@@ -463,7 +464,10 @@ fn generic_candidates(p: &Plan) -> Vec<Plan> {
     } else if !p.doc.is_empty() && p.builds.is_empty() {
         let len = p.doc.len();
         let mut size = len / 2;
-        while size >= 1 {
+        // (every candidate is a copy of the document: at most 64 chunks per granularity for
+        // big documents, down to single bytes only for small ones)
+        let min_size = if len > 2048 { len / 64 } else { 1 };
+        while size >= min_size.max(1) {
             let mut a = 0;
             while a < len {
                 let b = (a + size).min(len);
@@ -671,6 +675,98 @@ pub fn shrink(scen: &dyn Scenario, plan: &Plan, v: &Violation) -> (Plan, Violati
         break;
     }
     (best, best_v, tried)
+}
+
+// ---------------------------------------------------------------------------------
+// process isolation for plans that may abort the process
+
+/// Execute `plan` in a child process (`qxsim exec-plan`, the plan on stdin) and return the
+/// violations it reports. If the child is killed by a signal — a stack overflow ends in
+/// SIGABRT/SIGSEGV, which no `catch_unwind` sees — that death is the violation.
+pub fn exec_isolated(scen: &dyn Scenario, plan: &Plan) -> Vec<Violation> {
+    use std::io::Write;
+    use std::os::unix::process::ExitStatusExt;
+    use std::process::{Command, Stdio};
+    let fail = |what: String| -> ! {
+        eprintln!("HARNESS ERROR (child process for an isolated plan): {}", what);
+        std::process::exit(2);
+    };
+    let exe = std::env::current_exe().unwrap_or_else(|e| fail(format!("current_exe: {}", e)));
+    let mut child = Command::new(exe)
+        .arg("exec-plan")
+        .env("QXSIM_CHILD", "1")
+        .stdin(Stdio::piped())
+        .stdout(Stdio::piped())
+        .stderr(Stdio::null())
+        .spawn()
+        .unwrap_or_else(|e| fail(format!("spawn: {}", e)));
+    let json = serde_json::to_vec(plan).unwrap_or_else(|e| fail(format!("encode plan: {}", e)));
+    // (a child that died early closes the pipe: the write error is not the point then)
+    let _ = child.stdin.take().map(|mut i| i.write_all(&json));
+    let out = child.wait_with_output().unwrap_or_else(|e| fail(format!("wait: {}", e)));
+    if let Some(sig) = out.status.signal() {
+        return vec![Violation::new(
+            scen.panic_prop(),
+            "abort",
+            format!("the process was killed by signal {} while executing this plan (a stack overflow ends like this; it cannot be caught or reported as an error)", sig),
+        )];
+    }
+    match out.status.code() {
+        Some(0) => {}
+        other => fail(format!("child exited with {:?}: {}", other, String::from_utf8_lossy(&out.stdout))),
+    }
+    let mut vs = vec![];
+    for line in String::from_utf8_lossy(&out.stdout).lines() {
+        if let Ok(j) = serde_json::from_str::<Value>(line) {
+            let prop = match j["prop"].as_str() {
+                Some(p) => crate::registry::static_prop(p),
+                None => continue,
+            };
+            vs.push(Violation::new(prop, j["kind"].as_str().unwrap_or("?"), j["detail"].as_str().unwrap_or("").to_string()));
+        }
+    }
+    vs
+}
+
+/// `qxsim exec-plan`: the child side of `exec_isolated`
+pub fn exec_plan_from_stdin() -> i32 {
+    use std::io::Read;
+    let mut s = String::new();
+    if std::io::stdin().read_to_string(&mut s).is_err() {
+        return 2;
+    }
+    let plan: Plan = match serde_json::from_str(&s) {
+        Ok(p) => p,
+        Err(e) => {
+            println!("cannot decode plan: {}", e);
+            return 2;
+        }
+    };
+    let scen = match crate::registry::all_scenarios().into_iter().find(|s| s.name() == plan.scenario) {
+        Some(s) => s,
+        None => return 2,
+    };
+    // an ordinary thread with the default stack size, like the workers of the search
+    let h = std::thread::Builder::new().stack_size(2 * 1024 * 1024).spawn(move || {
+        install_panic_hook();
+        let mut st = Stats::default();
+        match guard(|| scen.exec(&plan, &mut st)) {
+            Ok(vs) => vs,
+            Err(p) if p.kind == PanicKind::Library => vec![Violation::new(scen.panic_prop(), "panic", format!("panic at {}: {}", p.loc, p.msg))],
+            Err(p) => {
+                println!("harness panic in child: {:?}", p);
+                std::process::exit(2)
+            }
+        }
+    });
+    let vs = match h.map(|h| h.join()) {
+        Ok(Ok(vs)) => vs,
+        _ => return 2,
+    };
+    for v in vs {
+        println!("{}", json!({"prop": v.prop, "kind": v.kind, "detail": v.detail}));
+    }
+    0
 }
 
 // ---------------------------------------------------------------------------------
